@@ -1,0 +1,17 @@
+//go:build !verif
+
+// Package vhook provides verification hook points.
+// Without the "verif" build tag every function is an empty stub.
+package vhook
+
+// At marks a named program point.
+func At(string) {}
+
+// AtID marks a named program point with an identifier.
+func AtID(string, string) {}
+
+// AtSeq marks a named program point with a sequence number.
+func AtSeq(string, uint64) {}
+
+// DiskFree never overrides anything without the verif tag.
+func DiskFree(string) (uint64, bool) { return 0, false }
